@@ -40,13 +40,18 @@ EXPLANATION = (
     'information (probing depends on the layout found), except the shape that provably discards a written priority order (source '
     'filtered by membership in a list/tuple and collected in source order). R2 (K3): in NinjaBuildElement.write every set-typed attribute reaches the written text only through sorted(). '
     'R3 (K1/K2): the five sibling writers of configure-time files open a temporary path, every normal path ends in '
-    'replace_if_different(final, temporary) and that call is only reachable after the writer was closed (with-exit / close()); inside replace_if_different os.replace happens exactly on the paths where the comparison did '
+    'replace_if_different(final, temporary) and that call is only reachable after the writer was closed (with-exit / close()); the same holds for module methods that write a '
+    'file and return it as File.from_built_file (a source / input of build edges); copy mode of configure_file uses a copy that keeps the '
+    'source mtime (copy2) or a temporary; inside replace_if_different os.replace happens exactly on the paths where the comparison did '
     'not prove equality and the equal path unlinks the temporary; build.ninja goes through temp + os.replace. R4 (K3): the scratch file '
-    'names meson_exe_*/meson_rsp_* are functions of a digest fed by command, env, workdir, capture and feed and by nothing volatile. '
+    'names meson_exe_*/meson_rsp_* are functions of a digest fed by command, env, workdir, capture and feed and by nothing volatile; an object whose class defines hash(hasher) is fed '
+    'through that method, not as str() text. '
     'R5 (K6): every un-keyed sorted()/sort()/min()/max() in scope whose elements are instances of a repository class relies on a __lt__ '
     'whose decision table is a strict total order consistent with __eq__. R5 covers every repository class that defines __lt__ (total_ordering classes without __eq__: the constructor-bound '
     'fields stand for the identity). Does NOT decide byte equality across runs (run-time relation), whether serialised state is dumped '
-    'before later configure steps mutate objects it aliases (e.g. dump_coredata vs. postconf hooks: run-time aliasing), '
+    'before later configure steps mutate objects it aliases (e.g. dump_coredata vs. postconf hooks: run-time aliasing), whether per-machine cache keys carry the machine (DependencyCache), '
+    'run-state files that no build edge reads and that are rewritten on every configuration by design (intro-*.json, meson-private/*.dat, '
+    'depmf.json, install/test pickles), the stale declaration kept by OptionStore.update_project_options for an unchanged type (C08), '
     'orders that come from the file system or the environment, or hash order hidden behind untyped values (reported as information).')
 ASSUMPTIONS = ['annotations T.Set/FrozenSet/AbstractSet/MutableSet and set()/frozenset()/{...} constructions denote builtin hash-ordered sets',
                'dict, list, OrderedSet, OrderedDict, deque keep insertion order; sorted() over str/int/tuples of those is total',
@@ -73,7 +78,8 @@ class _NoGC:
 def _scanner(ctx: RuleCtx) -> SiteScanner:
     key = id(ctx.repo)
     if key not in _CACHE or _CACHE[key][0] is not ctx.repo:
-        res = Resolver(ctx.repo, SCOPE + INDEX_EXTRA)
+        index = SCOPE + INDEX_EXTRA if not getattr(ctx.repo, '_c06_example', False) else sorted(ctx.repo.overlay)
+        res = Resolver(ctx.repo, index)
         _CACHE[key] = (ctx.repo, SiteScanner(ctx.repo, res))
     return _CACHE[key][1]  # type: ignore[no-any-return]
 
@@ -329,6 +335,13 @@ def _write_opens(fn: ast.AST) -> T.List[ast.Call]:
     return sorted(out, key=lambda c: c.lineno)
 
 
+def _ptext(e: T.Optional[ast.AST]) -> str:
+    """Normalised text of a path expression with str() / os.fspath() / Path() wrappers removed."""
+    while isinstance(e, ast.Call) and len(e.args) == 1 and not e.keywords and (attr_chain(e.func) or '') in ('str', 'os.fspath', 'Path', 'fspath', 'pathlib.Path'):
+        e = e.args[0]
+    return norm(e)
+
+
 def _path_writes(fn: ast.AST) -> T.List[ast.Call]:
     return sorted((c for c in walk_no_nested(fn) if isinstance(c, ast.Call) and isinstance(c.func, ast.Attribute)
                    and c.func.attr in ('write_text', 'write_bytes')), key=lambda c: c.lineno)
@@ -463,8 +476,8 @@ def _finished_by(ctx: RuleCtx, mod: Module, qual: str, finisher: str, dst_index:
     normal path by finisher(.., P, ..) whose destination differs from P, and only after the writer was closed."""
     fn = mod.func(qual)
     calls = [c for c in walk_no_nested(fn) if isinstance(c, ast.Call)]
-    sites: T.List[T.Tuple[ast.Call, str, bool]] = [(op, norm(op.args[0]), True) for op in _write_opens(fn)]
-    sites += [(c, norm(c.func.value), False) for c in _path_writes(fn)]     # Path(P).write_text(...): written and closed in one call
+    sites: T.List[T.Tuple[ast.Call, str, bool]] = [(op, _ptext(op.args[0]), True) for op in _write_opens(fn)]
+    sites += [(c, _ptext(c.func.value), False) for c in _path_writes(fn)]     # Path(P).write_text(...): written and closed in one call
     for c in calls:
         if not any(c is s[0] for s in sites):
             pw = _helper_writes(ctx, mod, qual, c)
@@ -478,7 +491,7 @@ def _finished_by(ctx: RuleCtx, mod: Module, qual: str, finisher: str, dst_index:
         for c in calls:
             pa = _pos_args(ctx, c) if (attr_chain(c.func) or '').split('.')[-1] == finisher else []
             if len(pa) > max(dst_index, tmp_index) and pa[tmp_index] is not None and pa[dst_index] is not None:
-                if norm(pa[tmp_index]) == p and norm(pa[dst_index]) != p:
+                if _ptext(pa[tmp_index]) == p and _ptext(pa[dst_index]) != p:
                     fins.append(c)
             elif c is not op:
                 hf = _helper_finishes(ctx, mod, qual, c, finisher, dst_index, tmp_index)
@@ -603,13 +616,22 @@ def _generated_sources(ctx: RuleCtx) -> None:
     """A module method that writes a file at configure time and hands it to the build as `File.from_built_file(...)` writes an input of
     compile edges: same idiom as the sibling writers (temporary + replace_if_different), or every reconfigure rebuilds its users."""
     n = 0
+    if getattr(ctx.repo, '_c06_example', False):
+        return
     for rel in ctx.repo.py_files('mesonbuild/modules'):
         src = ctx.repo.read(rel)
         if 'from_built_file' not in src:        # text pre-filter only
             continue
         mod = ctx.repo.module(rel)
         for q, fn in mod.funcs().items():
-            if (rel, q) in WRITERS or not any(isinstance(c, ast.Call) and (attr_chain(c.func) or '').endswith('from_built_file') for c in walk_no_nested(fn)):
+            if (rel, q) in WRITERS:
+                continue
+            # the method *returns* the built file (directly or through a local): its caller hands it to targets as a source / input
+            built = [c for c in walk_no_nested(fn) if isinstance(c, ast.Call) and (attr_chain(c.func) or '').endswith('from_built_file')]
+            names = {t.id for st in walk_no_nested(fn) if isinstance(st, ast.Assign) and any(st.value is b for b in built)
+                     for t in st.targets if isinstance(t, ast.Name)}
+            if not any(isinstance(r, ast.Return) and r.value is not None and (any(r.value is b for b in built) or (isinstance(r.value, ast.Name) and r.value.id in names))
+                       for r in walk_no_nested(fn)):
                 continue
             if _write_opens(fn) or _path_writes(fn):
                 n += _finished_by(ctx, mod, q, 'replace_if_different', 0, 1)
@@ -738,7 +760,7 @@ def _replace_if_different(ctx: RuleCtx) -> None:
                         f'on the path where the contents differ / the destination is missing the new content is not moved into place by os.replace({tmp}, {dst}): {where}')
     if not (seen_equal and seen_diff):
         raise Undecided('replace_if_different: content comparison `f1.read() == f2.read()` not found on the paths')
-    ctx.floor('feasible paths of replace_if_different', n, 3)
+    ctx.floor('feasible paths of replace_if_different', n, 2)
 
 
 # ---------------------------------------------------------------------------------------------- R4
@@ -1072,6 +1094,7 @@ def _example_must_fire(ctx: RuleCtx, core: T.Callable[[RuleCtx], None], overlay:
     must show up in a finding message, otherwise the rule has lost its teeth."""
     from ..report import Check
     repo = Repo(ctx.repo.root, overlay)
+    repo._c06_example = True       # type: ignore[attr-defined]   (stand-in modules only: small index, no package sweeps)
     ex = RuleCtx(Check('C06', repo), ctx.rule_id, 'built-in example')
     core(ex)
     msgs = [f.message + ' ' + f.construct + ' ' + f.function for f in ex.findings]
